@@ -10,3 +10,4 @@ def rules(ctx):
     S.c05_r1_abort_path(ctx)
     S.c06_r4_rebuild(ctx)
     S.c12_db_rules(ctx)
+    S.walker_rules(ctx)
